@@ -3,6 +3,7 @@ Drives the real pygls.uris (and urllib.parse for the direct comparisons); model 
 Model/Uris.v and Spec/UrisSpec.v through bin/c18_driver."""
 import itertools, json, os, re
 import core
+import priv
 
 # the property's alphabet: URI-significant characters, letters incl. an upper-case drive letter,
 # a digit, a newline (urlsplit removes raw \t \r \n), a neighbour of 'z', 2-/3-/4-byte characters
@@ -121,7 +122,9 @@ class C18(core.Property):
                     "modelled not verified: urllib.parse quote/unquote/urlsplit/urlparse/urlunsplit (CPython 3.12), "
                     "bytes.decode('utf-8','replace'), str.find/startswith/lower, re match of ^/[a-zA-Z]:",
                     "not modelled (cases flagged approx, compared but never alarming): ipaddress validation of a "
-                    "bracketed host, the NFKC check of a non-ASCII authority"]
+                    "bracketed host, the NFKC check of a non-ASCII authority",
+                    priv.trusted(["uris.normalize_win_path"])]
+    private = ["uris.normalize_win_path"]
     assumptions = ["IS_WIN false unless the case says win (then pygls.uris.IS_WIN is patched to True; nothing in uris.py depends on os.path)", "a Python str is a list of code points 0..0x10FFFF",
                    "arguments are str or None"]
 
@@ -359,8 +362,9 @@ class C18(core.Property):
                 elif k == "unparse":
                     out.append(obs(uris.urlunparse, tuple(tostr(x) for x in c["parts"])))
                 elif k == "norm":
+                    norm = priv.normalize_win_path()        # (located outside the observed call)
                     try:
-                        a, b = uris._normalize_win_path(tostr(c["p"]))
+                        a, b = norm(tostr(c["p"]))
                         out.append(["ok", [cps(a), cps(b)]])
                     except Exception as ex:
                         out.append(["raise", type(ex).__name__])
